@@ -13,6 +13,7 @@
  * timer_set_relative is a one-slot stub: the purge runs only if replay.c armed it, through the callback it
  * registered.  conf and log are stubs.  Built with ASan+UBSan; LeakSanitizer runs at exit. */
 #include "hexio.h"
+#include <errno.h>
 #include <stdarg.h>
 #include <pthread.h>
 #include "replay.c"
@@ -24,6 +25,20 @@ static int log_errors;
 void log_msg (int priority, const char *format, ...) { (void) priority; (void) format; }
 void log_err (int status, int priority, const char *format, ...) { log_errors++; }
 void log_errno (int status, int priority, const char *format, ...) { log_errors++; }
+
+/* allocation faults (op m<skip>: of the allocations made from now on by replay.c/hash.c, the one after the first <skip> fails with
+   ENOMEM; -Wl,--wrap=malloc) */
+void *__real_malloc (size_t n);
+static long mf_skip = -1;
+static int mf_in_op;                    /* only allocations made inside replay_insert() count (not the harness's own) */
+void *__wrap_malloc (size_t n) {
+    if (mf_in_op) {
+        if (mf_skip == 0) { mf_skip = -1; errno = ENOMEM; return NULL; }
+        if (mf_skip > 0) mf_skip--;
+    }
+    return __real_malloc (n);
+}
+static int insert_op (munge_cred_t c) { int rv; mf_in_op = 1; rv = replay_insert (c); mf_in_op = 0; return rv; }
 
 static time_t vnow;
 time_t __wrap_time (time_t *p) { if (p) *p = vnow; return vnow; }
@@ -120,16 +135,18 @@ static void q_line (char *arg) {
     if (!sz || !keys || !ops) { printf ("? bad Q line\n"); return; }
     parse_keys (keys);
     table_start (atoi (sz));
+    mf_skip = -1;
     printf ("Q ");
     for (tok = strtok_r (ops, ",", &s2); tok; tok = strtok_r (NULL, ",", &s2)) {
         long a = strtol (tok + 1, NULL, 10);
         if (!first) putchar ('|');
         first = 0;
         switch (tok[0]) {
-        case 'i': printf ("%d", (a >= 0 && a < nkeys) ? replay_insert (&creds[a]) : -9); break;
+        case 'i': printf ("%d", (a >= 0 && a < nkeys) ? insert_op (&creds[a]) : -9); break;
         case 'r': printf ("%d", (a >= 0 && a < nkeys) ? replay_remove (&creds[a]) : -9); break;
         case 'f': printf ("%d", (a >= 0 && a < nkeys) ? find_key ((int) a) : -9); break;
         case 'x': putchar ('-'); break;
+        case 'm': mf_skip = a; putchar ('-'); break;
         case 't': vnow = (time_t) a; putchar ('-'); break;
         case 'p':
             vnow = (time_t) a;
